@@ -243,6 +243,39 @@ func genExec() (string, error) {
 		}
 		return true
 	})
+	// read-modify-write of the cached proposal's header inside ProduceProposal (compound assignments,
+	// ++/--, or a plain assignment whose right-hand side reads the same header field): none may exist,
+	// the cached proposal can be served to several ProduceProposal calls
+	var rmw, headerAssigns []string
+	ast.Inspect(pp.Body, func(n ast.Node) bool {
+		switch v := n.(type) {
+		case *ast.IncDecStmt:
+			if strings.Contains(g.ExprText(v.X), "BlockHeader") {
+				rmw = append(rmw, g.StmtText(v))
+			}
+		case *ast.AssignStmt:
+			for i, l := range v.Lhs {
+				lt := g.ExprText(l)
+				if !strings.HasPrefix(lt, "p.Block.BlockHeader.") {
+					continue
+				}
+				t := g.StmtText(v)
+				if v.Tok.String() != "=" {
+					rmw = append(rmw, t)
+					continue
+				}
+				headerAssigns = append(headerAssigns, t)
+				for j, r := range v.Rhs {
+					if (len(v.Rhs) == 1 || i == j) && strings.Contains(g.ExprText(r), lt) {
+						rmw = append(rmw, t)
+					}
+				}
+			}
+		}
+		return true
+	})
+	emit("produceProposalHeaderReadModifyWrite", "ProduceProposal: statements that update a field of the cached proposal's header from its own previous value", rmw)
+	emit("produceProposalHeaderAssigns", "ProduceProposal: plain assignments to fields of the cached proposal's header", dedupe(headerAssigns))
 	emit("produceProposalFinalise", "ProduceProposal: order of the statements that patch the cached header, hash it, and finalise block result and certificate results", finalise)
 	emit("produceProposalDefers", "ProduceProposal: top-level deferred calls", topDefers(pp))
 	first := ""
@@ -467,6 +500,17 @@ func genExec() (string, error) {
 	emit("liveLotteryCalls", "controller/result.go CalculateRewardRecipients: calls of fsm.LotteryWinner on the live state machine", lottery)
 	b.WriteString("end Canopy.Gen.Exec\n")
 	return b.String(), nil
+}
+
+func dedupe(in []string) (out []string) {
+	seen := map[string]bool{}
+	for _, s := range in {
+		if !seen[s] {
+			seen[s] = true
+			out = append(out, s)
+		}
+	}
+	return
 }
 
 // noise: statements with no bearing on state (timing, metrics, logging).
